@@ -83,7 +83,23 @@ def _one(g, pid, f, r):
             import protocheck
             probs = protocheck.safe_coherence(g, ir)
             print("    load(%d bytes) returns an IR; coherence oracle: %s" % (len(bs), probs[:3] or "coherent"))
+            if r.get("second_load"):
+                ir3 = g.IR.load_protobuf_file(io.BytesIO(bs))
+                mine = {id(n) for n in content.reach(ir3)}
+                for cont in [ir3] + list(ir3.modules):
+                    for k, ad in cont.aux_data.items():
+                        try:
+                            foreign = [n for n in protocheck.walk_nodes(g, ad.data) if id(n) not in mine]
+                        except Exception as e:  # noqa: BLE001
+                            foreign = []
+                        if foreign:
+                            probs.append("second load: AuxData table %r holds %d node(s) that are not attached to the second IR" % (k, len(foreign)))
+                probs += ["second load: " + x for x in content.identity_check(g, ir3)]
+                print("    second load of the same bytes: %s" % (probs[:3] or "every reference is the second IR's own object"))
             outcome = ("ok", probs)
+            if r.get("must_reject_with"):
+                print("    the property prescribes rejection with %s" % r["must_reject_with"])
+                probs.append("accepted")
         try:
             p = gtirb_from_repo.msg("IR")()
             p.ParseFromString(bs[8:])
